@@ -248,6 +248,45 @@ def record_dust(run: Run, rnd: random.Random, thorough: bool, evs: list[dict[str
             evs.append({"op": "dust", "spk": spk.hex(), "rate": nat(r), "out": nat(dust_threshold(spk, FeeRate(sats_per_kvbyte=r)))})
 
 
+def record_totals(run: Run, rnd: random.Random, thorough: bool, evs: list[dict[str, Any]]) -> None:
+    """Output amounts around the money range, each and summed, handed to every object that carries outputs."""
+    from btclib.fee import FeeRate
+    from btclib.psbt.psbt import Psbt
+    from btclib.script.script_pub_key import ScriptPubKey
+    from btclib.tx import OutPoint, Tx, TxIn, TxOut
+    from btclib.tx_builder import build_psbt
+
+    M = 21_000_000 * 100_000_000
+    spk = ScriptPubKey(bytes.fromhex("0014" + "99" * 20))
+    kit = Kit()
+    vin = [TxIn(OutPoint(bytes(range(32)), 0), b"", 0xFFFFFFFD)]
+    cases = [[M], [M + 1], [M, 1], [M - 1, 1], [M - 1, 2], [M // 2, M // 2], [M // 2, M // 2 + 1], [1, 2, 3], [M, M - 1000], [0, M], [M, 0, 1], [2**63 - 1], [2**64 - 1], [M // 3] * 3, [M // 3 + 1] * 3]
+
+    def outs(vals: list[int]) -> list[Any]:
+        return [TxOut(v, spk, check_validity=False) for v in vals]
+
+    for vals in cases:
+        need = min(sum(vals), 4 * M) + 10**6          # inputs worth the payments and a million more, each within the range
+        chunks = [M] * (need // M) + [need % M]
+        ctxs = {
+            "Tx": lambda: Tx(2, 0, vin, outs(vals)),
+            "Tx.serialize": lambda: Tx(2, 0, vin, outs(vals), check_validity=False).serialize(include_witness=True),
+            "Psbt.from_tx": lambda: Psbt.from_tx(Tx(2, 0, vin, outs(vals), check_validity=False)),
+            "Psbt v0 assert_valid": lambda: Psbt.from_tx(Tx(2, 0, vin, outs(vals), check_validity=False), check_validity=False).assert_valid(),
+            "Psbt v2 serialize": lambda: Psbt.from_tx(Tx(2, 0, vin, outs(vals), check_validity=False), check_validity=False).to_v2().serialize(),
+            "build_psbt": lambda: build_psbt([kit.input("p2wpkh", k, v, k)[0] for k, v in enumerate(chunks)], outs(vals), FeeRate(sats_per_kvbyte=1000), None),
+            "build_psbt with change": lambda: build_psbt([kit.input("p2wpkh", k, v, k)[0] for k, v in enumerate(chunks)], outs(vals), FeeRate(sats_per_kvbyte=1000), bytes.fromhex("0014" + "33" * 20)),
+        }
+        if M - 10**6 < sum(vals) <= M:          # the change itself would take the total past the range: not a statement about the payments
+            del ctxs["build_psbt with change"]
+        for ctx, fn in ctxs.items():
+            r = outcome(fn)
+            if isinstance(r, str) and r.startswith("foreign"):
+                evs.append({"op": "nonnumber", "fn": f"total {ctx}", "quote": str(vals), "ctx": 0, "out": r})
+                continue
+            evs.append({"op": "total", "ctx": ctx, "values": [nat(v) for v in vals], "accepted": not isinstance(r, str)})
+
+
 # --------------------------------------------------------------------------------------
 # funding, estimates, signing
 
@@ -273,7 +312,10 @@ class Kit:
             self.kinds[typ] = {"desc": receive, "change": change, "signers": [self.s1], "purpose": purpose}
         for typ, tmpl, signers, m in (("p2pk", "pk({a}/0/*)", [self.s1], 0), ("p2wsh-p2ms", "wsh(sortedmulti(2,{a}/0/*,{b}/0/*))", [self.s1, self.s2], 2),
                                       ("p2sh-p2ms", "sh(sortedmulti(2,{a}/0/*,{b}/0/*))", [self.s1, self.s2], 2), ("p2sh-p2wsh-p2ms", "sh(wsh(multi(1,{a}/0/*,{b}/0/*)))", [self.s1], 1),
-                                      ("p2ms", "multi(1,{a}/0/*,{b}/0/*)", [self.s1], 1), ("p2wsh-p2ms-3", "wsh(multi(3,{a}/0/*,{b}/0/*,{a}/1/*))", [self.s1, self.s2], 3)):
+                                      ("p2ms", "multi(1,{a}/0/*,{b}/0/*)", [self.s1], 1), ("p2wsh-p2ms-3", "wsh(multi(3,{a}/0/*,{b}/0/*,{a}/1/*))", [self.s1, self.s2], 3),
+                                      # eight keys: a redeem script of 275 bytes, past the one-byte OP_PUSHDATA1 length
+                                      ("p2sh-p2ms-8", "sh(multi(1," + ",".join("{a}/%d/*" % j for j in range(8)) + "))", [self.s1], 1),
+                                      ("p2wsh-p2ms-8", "wsh(multi(2," + ",".join("{a}/%d/*" % j for j in range(7)) + ",{b}/0/*))", [self.s1, self.s2], 2)):
             try:
                 self.kinds[typ] = {"desc": descriptors.parse(tmpl.format(a=a, b=b)), "signers": signers, "m": m}
             except Exception as e:  # noqa: BLE001
@@ -296,7 +338,7 @@ class Kit:
         pin.previous_tx_id, pin.output_index = prev_tx.id, 0
         if sighash:
             pin.sig_hash_type = sighash
-        base = typ.replace("-3", "")
+        base = typ.replace("-3", "").replace("-8", "")
         rec: dict[str, Any] = {"type": base}
         if base == "p2pkh":
             rec["keylen"] = 33
@@ -393,6 +435,14 @@ def record_funding(run: Run, rnd: random.Random, thorough: bool, evs: list[dict[
                         evs.append(e)
                         stats["funded" if b2 is not None else "refused"] += 1
                         stats["with_change"] += 1 if b2 is not None and b2.change_index is not None else 0
+    # 1b. the number of outputs across a CompactSize width: the change output is the 253rd
+    for npay in (251, 252, 253):
+        for cname in ("p2wpkh", "none"):
+            pays = [(1000 + j, pay_spk) for j in range(npay)]
+            for total in (sum(v for v, _ in pays) + 40_000, sum(v for v, _ in pays) + 9_000):
+                e, b2, _ = fund_event(kit, ["p2wpkh"], [total], pays, 1000, changes[cname], 3000)
+                evs.append(e)
+                stats["funded" if b2 is not None else "refused"] += 1
     # 2. estimate >= what the library's own signer and finalizer emit, over many keys (signature lengths vary with the key and message)
     rounds = 28 if thorough else 7
     for mix in mixes:
@@ -441,9 +491,10 @@ def check(run: Run) -> None:
     record_fees(run, rnd, thorough, evs)
     record_conversions(run, rnd, thorough, evs)
     record_dust(run, rnd, thorough, evs)
+    record_totals(run, rnd, thorough, evs)
     stats = record_funding(run, rnd, thorough, evs)
     keep = ("op", "hex", "size", "stripped", "weight", "vsize", "script", "witness", "rate", "out", "avsize", "afee", "neg", "digits", "exp", "sats", "spk", "tx", "types", "est_weight",
-            "in_total", "fee", "dust_rate", "change_spk", "has_change", "outcome", "change", "index", "final", "fn")
+            "in_total", "fee", "dust_rate", "change_spk", "has_change", "outcome", "change", "index", "final", "fn", "values", "accepted")
     compact = [{k: v for k, v in e.items() if k in keep} for e in evs]
     results, bad, diag = events.validate("C18Trace", compact, batch=4000, timeout=3000)
     for r in results:
@@ -453,6 +504,8 @@ def check(run: Run) -> None:
         small = {kk: (vv if not isinstance(vv, str) or len(vv) < 200 else vv[:200] + "...") for kk, vv in e.items()}
         if e["op"] in ("btc", "rate", "nonnumber", "tobtc", "torate"):
             key = f"accounting|{e.get('fn', e['op'])}|{'ambient decimal context' if e.get('ctx') else 'default context'}|{str(e.get('out'))[:40] if str(e.get('out')).startswith(('foreign', 'ok-expected')) else 'wrong answer'}{' ' + FOREIGN[0] if str(e.get('out')).endswith('foreign') and FOREIGN else ''}"
+        elif e["op"] == "total":
+            key = f"accounting|total|{e['ctx']}|accepted={e['accepted']}"
         elif e["op"] in ("fund", "estimate", "signed"):
             key = f"accounting|{e['op']}|{'+'.join(e.get('kinds', []))}"
         else:
@@ -473,7 +526,7 @@ def replay(path: str) -> int:
     if not e:
         return 0
     keep = ("op", "hex", "size", "stripped", "weight", "vsize", "script", "witness", "rate", "out", "avsize", "afee", "neg", "digits", "exp", "sats", "spk", "tx", "types", "est_weight",
-            "in_total", "fee", "dust_rate", "change_spk", "has_change", "outcome", "change", "index", "final", "fn")
+            "in_total", "fee", "dust_rate", "change_spk", "has_change", "outcome", "change", "index", "final", "fn", "values", "accepted")
     results, bad, diag = events.validate("C18Trace", [{k: v for k, v in e.items() if k in keep}], workers=1)
     if bad:
         print(f"VIOLATION property=C18 replay={path}  # recorded event not explained by the specification; expected {diag.get(0)}")
